@@ -22,6 +22,7 @@ import (
 	"net/http"
 	"strings"
 	"sync"
+	"time"
 
 	jose "github.com/go-jose/go-jose/v4"
 	"github.com/zitadel/oidc/v3/pkg/op"
@@ -143,6 +144,11 @@ func genPair(t *rapid.T) *PairCase {
 
 // ---- the gate ----------------------------------------------------------------------------
 
+// passer is what the storage wrapper asks before (exit=false) and after (exit=true) the gated methods.
+type passer interface {
+	pass(method string, exit bool)
+}
+
 // gate holds ONE storage call of an armed method until the harness opens it. entered is signalled (buffered) when a call
 // has arrived; the harness waits for either that signal or the completion of the request, so nothing depends on timing.
 type gate struct {
@@ -164,7 +170,10 @@ func (g *gate) disarm() {
 	g.mu.Unlock()
 }
 
-func (g *gate) pass(method string) {
+func (g *gate) pass(method string, exit bool) {
+	if exit {
+		return // the pair cases hold calls at entry only
+	}
 	g.mu.Lock()
 	hit := g.armed != "" && g.armed == method
 	if hit {
@@ -179,21 +188,30 @@ func (g *gate) pass(method string) {
 	<-release
 }
 
-// gBase forwards everything to the shaped storage of the case; the two methods every provider's storage is asked on behalf
-// of the published documents pass the gate first.
+// gBase forwards everything to the shaped storage of the case; the methods every provider's storage is asked on behalf
+// of the published documents (discovery: SignatureAlgorithms, keys: KeySet, readiness: Health) pass the gate first and
+// once more when they have their answer.
 type gBase struct {
 	op.Storage
-	g *gate
+	g passer
 }
 
 func (b gBase) SignatureAlgorithms(ctx context.Context) ([]jose.SignatureAlgorithm, error) {
-	b.g.pass("SignatureAlgorithms")
+	b.g.pass("SignatureAlgorithms", false)
+	defer b.g.pass("SignatureAlgorithms", true)
 	return b.Storage.SignatureAlgorithms(ctx)
 }
 
 func (b gBase) KeySet(ctx context.Context) ([]op.Key, error) {
-	b.g.pass("KeySet")
+	b.g.pass("KeySet", false)
+	defer b.g.pass("KeySet", true)
 	return b.Storage.KeySet(ctx)
+}
+
+func (b gBase) Health(ctx context.Context) error {
+	b.g.pass("Health", false)
+	defer b.g.pass("Health", true)
+	return b.Storage.Health(ctx)
 }
 
 type extraCaps interface {
@@ -206,7 +224,7 @@ type extraCaps interface {
 
 // gated wraps a storage so that it exposes exactly the optional capabilities of the inner one (the library detects them by
 // type assertion).
-func gated(inner op.Storage, g *gate) op.Storage {
+func gated(inner op.Storage, g passer) op.Storage {
 	base := gBase{inner, g}
 	cc, hasCC := inner.(op.ClientCredentialsStorage)
 	te, hasTE := inner.(op.TokenExchangeStorage)
@@ -437,13 +455,48 @@ func runPair(p *PairCase, res *vkit.Result) {
 			case <-who.g.entered:
 				// the request is inside who's storage and stays there until the other provider has finished
 				res.Label("pair:gate:request-held-inside-storage")
+				var waiting []chan *vkit.Resp
 				for _, a := range st.Acts {
+					if a == "same:discovery" {
+						// a second request to the provider whose first one is held: it runs on its own goroutine, because a
+						// provider may make it wait for the first (that changes the schedule, not a verdict)
+						res.Label("pair:act:" + a)
+						agent2, ch := who.ua(), make(chan *vkit.Resp, 1)
+						go func() { ch <- agent2.get("/.well-known/openid-configuration", nil) }()
+						select {
+						case d := <-ch:
+							seconds = append(seconds, d)
+						case <-time.After(stallLimit):
+							res.Label("pair:gate:second-request-waits-for-the-held-one")
+							waiting = append(waiting, ch)
+						}
+						continue
+					}
 					if d := act(a, who, other); d != nil {
 						seconds = append(seconds, d)
 					}
 				}
 				close(who.g.release)
-				doc = <-done
+				// the only blocking point of the harness is open: everything in flight has to answer
+				deadline := time.After(joinLimit)
+				hung := false
+				select {
+				case doc = <-done:
+				case <-deadline:
+					hung = true
+				}
+				for _, ch := range waiting {
+					select {
+					case d := <-ch:
+						seconds = append(seconds, d)
+					case <-deadline:
+						hung = true
+					}
+				}
+				if hung {
+					res.Fail("C19:discovery-never-answered", "pair step %d: a discovery request to provider %s did not answer within %v after the storage call it (or an identical earlier request) was held in had been released", n, who.name, joinLimit)
+					return
+				}
 			case doc = <-done:
 				// the request did not consult that storage method: nothing to interleave with, judged all the same
 				who.g.disarm()
